@@ -58,6 +58,11 @@ def replay(rep):
             out.violate(sig, what, rp)
         return out
     tier = rep.get("tier", "thorough")
+    if rep.get("fn") == "offset":
+        for sig, what, rp in E.offset_invariance(tier)[0]:
+            if rp.get("args") == rep.get("args"):
+                out.violate(sig, what, rp)
+        return out
     for sig, what, rp in E.numeric_checks(tier, rep.get("seed", 0))[0]:
         if rp.get("fn") == rep.get("fn") and rp.get("args") == rep.get("args") and rp.get("seq") == rep.get("seq"):
             out.violate(sig, what, rp)
